@@ -6,6 +6,7 @@ import (
 	"fmt"
 	"github.com/yuin/goldmark"
 	"io"
+	"sort"
 	"strings"
 	"sync"
 	"unicode/utf8"
@@ -99,6 +100,8 @@ func c03Configs() []Cfg {
 	return out
 }
 
+var treeEvery = 4
+
 func safeModeSweep(c *Ctx, targeted []string, each func(cf Cfg, it docItem, out []byte, report func(kind, detail string))) {
 	cfgs := c03Configs()
 	o := docOpts{exhaustiveLen: 2, corpus: true, random: 4000, mutants: 3000, randLines: 2000}
@@ -124,6 +127,7 @@ func safeModeSweep(c *Ctx, targeted []string, each func(cf Cfg, it docItem, out 
 		cfg, kind, d string
 	}
 	var viols []viol
+	var trees [][2]interface{}
 	nontriv := make([]bool, len(items))
 	nw := 16
 	built := make([][]mdT, nw)
@@ -148,6 +152,15 @@ func safeModeSweep(c *Ctx, targeted []string, each func(cf Cfg, it docItem, out 
 			if bytes.ContainsAny(it.doc, "<>&\"{") && bytes.ContainsAny(out, "=&") {
 				nontriv[i] = true
 			}
+			// tie of the renderer model: the tree the real parser built, rendered by both sides,
+			// and the well-formedness hypothesis of the theorems evaluated on it
+			if m.cf.Ext != "all" && m.cf.Ext != "cjk" && (i%treeEvery == 0 || (treeEvery <= 4 && it.stream == "targeted")) {
+				if args, res, ok := treeCase(m.md, m.cf, it.doc); ok {
+					mu.Lock()
+					trees = append(trees, [2]interface{}{args, res})
+					mu.Unlock()
+				}
+			}
 			each(m.cf, it, out, func(kind, detail string) {
 				mu.Lock()
 				viols = append(viols, viol{i, m.cf.Name(), kind, detail})
@@ -155,6 +168,15 @@ func safeModeSweep(c *Ctx, targeted []string, each func(cf Cfg, it docItem, out 
 			})
 		}
 	})
+	sort.Slice(trees, func(i, j int) bool {
+		return strings.Join(trees[i][0].([]string), "\t") < strings.Join(trees[j][0].([]string), "\t")
+	})
+	for _, tc := range trees {
+		a := tc[0].([]string)
+		c.Case("RenderTree", a, tc[1].(string))
+		c.Case("WfTree", []string{a[1], a[2]}, "1")
+	}
+	c.Rep.Extra["tree_cases"] = len(trees)
 	seenKind := map[string]int{}
 	for _, v := range viols {
 		if seenKind[v.kind] < 4 {
